@@ -1,13 +1,17 @@
 #!/bin/sh
 # Entry point of every registered command: (re)builds the driver from source,
 # offline, then runs it. Exit codes: 0 held, 1 VIOLATION, 2 infrastructure.
+# Everything is relative to the directory this script lives in (so a snapshot
+# of /verif runs from its own sources and writes its own evidence).
 export GOFLAGS=-mod=mod GOPROXY=off GOSUMDB=off GOTOOLCHAIN=local
-mkdir -p /verif/bin /verif/evidence /verif/replays
-cd /verif/sim/driver || exit 2
-if ! go build -o /verif/bin/verif.$$ . ; then
+VERIF_DIR=$(cd "$(dirname "$0")" && pwd)
+export VERIF_DIR
+mkdir -p "$VERIF_DIR/bin" "$VERIF_DIR/evidence" "$VERIF_DIR/replays"
+cd "$VERIF_DIR/sim/driver" || exit 2
+if ! go build -o "$VERIF_DIR/bin/verif.$$" . ; then
 	echo "INFRA: building the driver failed" >&2
 	exit 2
 fi
-mv -f /verif/bin/verif.$$ /verif/bin/verif
-cd /verif
-exec /verif/bin/verif "$@"
+mv -f "$VERIF_DIR/bin/verif.$$" "$VERIF_DIR/bin/verif"
+cd "$VERIF_DIR"
+exec "$VERIF_DIR/bin/verif" "$@"
